@@ -21,7 +21,9 @@ def main():
         import re
         obs = [o for o in obs if re.search(a.only, o.name)]
     vf.workdir(a.pid)
-    rc = vf.main(a.pid, a.tier, obs, spec.get("assumptions", []), spec["explanation"], trusted=spec.get("trusted", []),
-                 outside=spec.get("outside", []))
+    import meta
+    m = meta.META[a.pid]
+    rc = vf.main(a.pid, a.tier, obs, m["assumptions"] + ["every stub is listed in DESIGN.md section 3.5; every bound in the obligation's 'bound' field"],
+                 m["explanation"], trusted=m["trusted"], outside=m["outside"])
     sys.exit(rc)
 main()
